@@ -39,6 +39,7 @@ RAC = {
     'c04_go_directive': dict(crate='harper-comments', attach='harper-comments/src/comment_parser.rs', file='prose_offsets.rs', test='rac_c04_go_directive', function='Go::parse (//go: directive lines that are not the first line of the comment group)'),
     'c04_javadoc_pre': dict(crate='harper-comments', attach='harper-comments/src/comment_parser.rs', file='prose_offsets.rs', test='rac_c04_javadoc_pre', function='JavaDoc::parse / HtmlParser (<pre> blocks)'),
     'c04_javadoc_return': dict(crate='harper-comments', attach='harper-comments/src/comment_parser.rs', file='prose_offsets.rs', test='rac_c04_javadoc_return', function='JavaDoc::parse (block tag marking of `@return <prose>`)'),
+    'c04_fixed_files': dict(crate='harper-comments', attach='harper-comments/src/comment_parser.rs', file='prose_offsets.rs', test='rac_c04_fixed_files', function='CommentParser::parse on fixed files (mixed fences, leading links, go directive)'),
     'lhs_prose_offsets': dict(crate='harper-literate-haskell', attach='harper-literate-haskell/src/lib.rs', file='lhs.rs', test='rac_lhs_prose_offsets', function='LiterateHaskellParser (masker + parsers::Mask::parse + Markdown): prose words at their true offsets'),
     'html_prose_offsets': dict(crate='harper-html', attach='harper-html/src/lib.rs', file='html.rs', test='rac_html_prose_offsets', function='HtmlParser (tree-sitter text nodes + parsers::Mask::parse): prose words at their true offsets'),
     'typst_prose_offsets': dict(crate='harper-typst', attach='harper-typst/src/lib.rs', file='typst.rs', test='rac_typst_prose_offsets', function='Typst parser (typst_translator, offset_cursor): prose words at their true offsets'),
